@@ -360,8 +360,17 @@ func (rm *room) pickPrevs() []string {
 	if t.Chance(350) {
 		b := recent()
 		if b != a {
+			if t.Chance(100) {
+				// one prev event referenced twice
+				rm.r.Probe("prev_event_listed_twice")
+				return []string{a, b, a}
+			}
 			return []string{a, b}
 		}
+	}
+	if t.Chance(40) {
+		rm.r.Probe("prev_event_listed_twice")
+		return []string{a, a}
 	}
 	if t.Chance(60) && n > 4 {
 		l := []string{a}
@@ -494,6 +503,17 @@ func (rm *room) propose(i int, actor user, before map[ref.Key]string) (typ strin
 	case 7: // message (not state)
 		typ, sk, content = "m.room.message", nil, map[string]any{"body": "x", "msgtype": "m.text"}
 	}
+	if c, ok := content.(map[string]any); ok && typ == spec.MRoomMember && c["membership"] != "invite" && t.Chance(120) {
+		// a membership event that is not an invite but carries a
+		// third_party_invite block (a join keeping the block of the invite it
+		// follows up, say): the published invite it names is among the state
+		// its verdict depends on all the same
+		tok := sim.Pick(t, []string{"tokA", "tokB"})
+		if signed, err := gmsl.SignJSON("id.example", "ed25519:0", identityKey(t.Intn(2)), []byte(fmt.Sprintf(`{"mxid":%q,"token":%q}`, *sk, tok))); err == nil {
+			c["third_party_invite"] = map[string]any{"display_name": "x", "signed": json.RawMessage(signed)}
+			r.Probe("third_party_invite_block_on_non_invite_membership")
+		}
+	}
 	if !honest && t.Chance(200) && len(rm.order) > 3 {
 		// Byzantine: cite auth events from another point of the DAG
 		authFrom = rm.nodes[sim.Pick(t, rm.order[1:])].after
@@ -616,14 +636,20 @@ func (rm *room) mutatePL(before map[ref.Key]string, actor user, honest bool) map
 				ev[k] = level()
 			}
 		case 4:
-			delete(out, sim.Pick(t, []string{"ban", "kick", "invite", "redact", "events_default", "state_default", "users_default", "events"}))
+			delete(out, sim.Pick(t, []string{"ban", "kick", "invite", "redact", "events_default", "state_default", "users_default", "events", "notifications"}))
 		case 5:
 			nt, _ := out["notifications"].(map[string]any)
 			if nt == nil {
 				nt = map[string]any{}
 				out["notifications"] = nt
 			}
-			nt[sim.Pick(t, []string{"room", "custom"})] = level()
+			k := sim.Pick(t, []string{"room", "custom", "org.example.here"})
+			if _, has := nt[k]; has && t.Chance(450) {
+				delete(nt, k) // the notification falls back to its default
+				rm.r.Probe("pl_notification_entry_removed")
+			} else {
+				nt[k] = level()
+			}
 		}
 	}
 	return out
